@@ -308,4 +308,8 @@ def run(ctx):
         ctx.traces += m
         ctx.stage('replay.Calculate.sequences', rank=rank, two_call_sequences=m)
         ctx.sample({'rank': rank, 'edge_label': {k: v for k, v in res.records['EDGE'][2]['l'].items() if k != 'weights'}})
+    # vacuity guard: the PY solvation potential is only judged where 1 + CSC > 0 at every k; if no instance qualifies the clause
+    # was never exercised and the check must not report that it held
+    if not ctx.notes.get('py_solvation_judged'):
+        raise MachineryError('no instance on which solvation_potential(PY) could be judged (vacuous check)')
     self_consistency(ctx)
